@@ -157,6 +157,14 @@ def gen_c17(r):
         else:
             cs = rnd_slice(r, L)
         return ["rl2_getitem", obj, rs, cs], {"tuple1": r.random() < 0.2, "objvia": r.choice(OBJV)}, False
+    if k == "func" and r.random() < 0.15:
+        from .enc import limbs
+        wdt = r.choice(["i8", "u8", "u8"])
+        base = r.choice([2 ** 53, 2 ** 60, 2 ** 62, 5]) if wdt == "i8" else r.choice([2 ** 53, 2 ** 63, 2 ** 64 - 40, 7])
+        sign = -1 if wdt == "i8" and r.random() < 0.3 else 1
+        o0 = rnd_obj(r, "i1", kinds=("matrix", "ragged"))
+        obj = [o0[0], wdt, [[limbs(sign * (base + abs(v))) for v in row] for row in o0[2]]]
+        return ["rl2_func", r.choice(["wsum", "wcolsum"]), obj], {"how": "method", "objvia": r.choice(OBJV)}, False
     if k == "func":
         obj = rnd_obj(r)
         name = r.choice(["to_array", "len", "size", "shape", "sum", "any", "all", "max", "mean", "argmax", "colsum", "colmean", "colcounts", "colany", "ravel"])
